@@ -398,12 +398,18 @@ func runEvents(c *Ctx, r *Reporter) {
 	if fd := FindFunc(pkg, "(*Evaluator).HandleEvent"); fd != nil {
 		sf := p.SSAFunc(fd.Obj)
 		var conv *ssa.Call
-		for _, b := range sf.Blocks {
-			for _, ins := range b.Instrs {
-				if call, ok := ins.(*ssa.Call); ok && call.Call.StaticCallee() != nil && call.Call.StaticCallee().Name() == "valueFromAny" {
-					conv = call
+		// the binding of the payload may live in a helper of HandleEvent: the function that converts is analysed
+		for _, h := range regionFns(sf, 2, dispatcherNames) {
+			for _, b := range h.Blocks {
+				for _, ins := range b.Instrs {
+					if call, ok := ins.(*ssa.Call); ok && call.Call.StaticCallee() != nil && call.Call.StaticCallee().Name() == "valueFromAny" && conv == nil {
+						conv = call
+					}
 				}
 			}
+		}
+		if conv != nil {
+			sf = conv.Parent()
 		}
 		if conv == nil {
 			r.Viol(fd.QName()+"#payload", p.Rel(fd.Decl.Pos()), "HandleEvent must convert each payload value with valueFromAny")
@@ -516,7 +522,16 @@ func runEvents(c *Ctx, r *Reporter) {
 		sf := pp.SSAFunc(fd.Obj)
 		var eq *ssa.Call
 		usesAccepts := false
-		for _, b := range sf.Blocks {
+		// the comparison of one parameter may live in a helper; validateVarDecl and the type relations are not followed
+		evStop := map[string]bool{"validateVarDecl": true, "Equals": true, "accepts": true, "matches": true, "appendError": true, "appendErrorForToken": true, "set": true}
+		for k := range dispatcherNames {
+			evStop[k] = true
+		}
+		var evBlocks []*ssa.BasicBlock
+		for _, h := range regionFns(sf, 2, evStop) {
+			evBlocks = append(evBlocks, h.Blocks...)
+		}
+		for _, b := range evBlocks {
 			for _, ins := range b.Instrs {
 				if call, ok := ins.(*ssa.Call); ok && call.Call.StaticCallee() != nil {
 					switch call.Call.StaticCallee().Name() {
@@ -566,7 +581,11 @@ func runEvents(c *Ctx, r *Reporter) {
 		sf := pp.SSAFunc(fd.Obj)
 		// registration (map update on eventHandlers) only when not yet defined and known
 		okReg := false
-		for _, b := range sf.Blocks {
+		var regBlocks []*ssa.BasicBlock
+		for _, h := range regionFns(sf, 2, dispatcherNames) { // the registration may live in a helper
+			regBlocks = append(regBlocks, h.Blocks...)
+		}
+		for _, b := range regBlocks {
 			for _, ins := range b.Instrs {
 				mu, ok := ins.(*ssa.MapUpdate)
 				if !ok || !loadsField(mu.Map, "eventHandlers") {
